@@ -18,6 +18,13 @@ type Opts struct {
 	SimpleNames bool
 	// Locals adds `locals` blocks and HCL-only expressions (see AddLocals).
 	Locals bool
+	// TextBlocks draws 35% of the bodies / payloads and 6% of the other free-text
+	// values as hand-written text blocks (see textBlock): 1-5 lines that start
+	// with tabs or spaces, contain `#`, `: `, trailing blanks, CR LF line ends,
+	// none / one / several trailing newlines.
+	TextBlocks bool
+	// YAMLStyles draws Layout.YAMLStyles (see AddYAMLStyles).
+	YAMLStyles bool
 	// MaxSources, MaxSteps, MaxScenarios bound the sizes (0 = 3, 4, 3).
 	MaxSources, MaxSteps, MaxScenarios int
 }
@@ -297,7 +304,10 @@ func (g sgen) request(i int, used map[string]bool) Request {
 	q.Headers = g.optKVs(l+".headers", 70, poolHeaderKeys, poolHeaderValues, 4)
 	q.Tag = g.optStr(l+".tag", 50, poolTags)
 	if g.chance(l+".body?", 55) {
-		if g.chance(l+".body.heredoc?", 35) {
+		if g.opts.TextBlocks && g.chance(l+".body.textblock?", 35) {
+			q.Body = ptr(g.textBlock(l + ".body"))
+			q.BodyHeredoc = g.chance(l+".body.heredoc.try", 60)
+		} else if g.chance(l+".body.heredoc?", 35) {
 			q.Body = ptr(g.heredocText(l+".body", poolBodyLines))
 			q.BodyHeredoc = g.chance(l+".body.heredoc.use", 80)
 		} else {
@@ -324,7 +334,10 @@ func (g sgen) call(i int, used map[string]bool) Call {
 	c.Call = g.free(l+".call", poolCalls)
 	c.Tag = g.optStr(l+".tag", 50, poolTags)
 	c.Metadata = g.optKVs(l+".metadata", 60, poolMetaKeys, poolMetaVals, 3)
-	if g.chance(l+".payload.heredoc?", 30) {
+	if g.opts.TextBlocks && g.chance(l+".payload.textblock?", 35) {
+		c.Payload = g.textBlock(l + ".payload")
+		c.PayloadHeredoc = g.chance(l+".payload.heredoc.try", 60)
+	} else if g.chance(l+".payload.heredoc?", 30) {
 		c.Payload = g.heredocText(l+".payload", poolBodyLines)
 		c.PayloadHeredoc = g.chance(l+".payload.heredoc.use", 80)
 	} else {
@@ -433,6 +446,9 @@ func GenHTTP(t *rapid.T, o Opts) Model {
 	if o.Locals {
 		AddLocals(t, &m, o)
 	}
+	if o.YAMLStyles {
+		AddYAMLStyles(t, &m)
+	}
 	return m
 }
 
@@ -450,6 +466,9 @@ func GenGRPC(t *rapid.T, o Opts) Model {
 	m.Layout = g.layout()
 	if o.Locals {
 		AddLocals(t, &m, o)
+	}
+	if o.YAMLStyles {
+		AddYAMLStyles(t, &m)
 	}
 	return m
 }
